@@ -28,9 +28,11 @@ class FuncInfo(object):
     def key(self):
         return '%s:%s' % (self.rel, self.qual)
 
+    user_property_decorators = frozenset()     # names of repository-defined decorators that return property(...) (set by Facts)
+
     @property
     def is_property(self):
-        return any(d in ('property', 'cached_property') or d.endswith('.setter')
+        return any(d in ('property', 'cached_property') or d.endswith('.setter') or d in self.user_property_decorators
                    for d in self.decorators)
 
     @property
@@ -137,6 +139,19 @@ class Facts(object):
 
     # ------------------------------------------------------------------
     def _build(self):
+        ups = set()
+        for rel, tree in self.repo.trees.items():
+            for fn in tree.body:
+                if isinstance(fn, ast.FunctionDef) and fn.name not in ('cached_property', 'context_property') and any(
+                        isinstance(r, ast.Return) and isinstance(r.value, ast.Call) and unparse(r.value.func) == 'property'
+                        for r in ast.walk(fn)):
+                    ups.add(fn.name)
+        self.user_property_decorators = frozenset(ups)
+        self._build_all()
+        for fi in self.funcs.values():
+            fi.user_property_decorators = self.user_property_decorators
+
+    def _build_all(self):
         for rel, tree in self.repo.trees.items():
             self.module_funcs[rel] = {}
             self.imports[rel] = {}
